@@ -18,7 +18,7 @@ Definition env_step (notify_all : bool) (acc : res env) (v : env * str * bool) :
     else match env_get (S_ "notify") e1 with
          | None => Ok (env_insert (S_ "notify") (EList [snd (fst v)]) e1)
          | Some (EList l) => Ok (env_insert (S_ "notify") (EList (l ++ [snd (fst v)])) e1)
-         | Some (Single _) => Panic 2
+         | Some (Single s) => Ok (env_insert (S_ "notify") (EList [s; snd (fst v)]) e1)
          end).
 
 Definition env_of_views (genv : env) (notify_all : bool) (all_defines : list str) (local : env)
@@ -34,7 +34,7 @@ Definition benv_step (self : module) (acc : res (env * option (list module))) (d
            else match env_get (S_ "notify") e1 with
                 | None => Ok (env_insert (S_ "notify") (EList [module_define d]) e1)
                 | Some (EList l) => Ok (env_insert (S_ "notify") (EList (l ++ [module_define d])) e1)
-                | Some (Single _) => Panic 2
+                | Some (Single s) => Ok (env_insert (S_ "notify") (EList [s; module_define d]) e1)
                 end) (fun e2 =>
     let bd1 := if negb (module_eqb d self) && m_is_build_dep d
                then Some (mset_insert d (odflt [] bd)) else bd in
